@@ -122,4 +122,58 @@ func init() {
 		Stubs: []string{"content bytes assumed < 128 (the four FNC placeholders U+00F1..U+00F4 are outside this obligation)", "oracle: 48 nine-module patterns and the full-ASCII table transcribed from the symbology specification"},
 		Bound: "content = n symbolic ASCII bytes: basic mode n<=3 (4 thorough), full-ASCII n<=1 (2 thorough) x checksum flag",
 		Configs: c3993})
+
+	reg(&Oblig{ID: "C128-idx", Pkg: "code128", Func: "VP_C128_idx", Props: []string{"C05", "C10"},
+		Desc:  "Code 128 code-set chooser: for k symbolic runes after a prefix establishing code set none/B/A/C, the symbol values decode (reference A/B/C decoder incl. switches and FNC) to exactly the text; nil exactly when a rune is outside ASCII + FNC1..4; input slice untouched",
+		Real:  []string{"code128.getCodeIndexList", "code128.shouldUseCTable", "code128.shouldUseATable", "code128.tableContainsRune", "(*utils.BitList).AddByte/GetBytes"},
+		Stubs: []string{"strings.IndexRune / ContainsRune on the constant code-set tables modelled exactly (first offset whose rune equals the symbolic needle)"},
+		Bound: "k <= 3 fully symbolic runes (any int32) x 5 start states (quick); k <= 4 (thorough)",
+		Configs: func(tier string, seed int64) []map[string]int {
+			var out []map[string]int
+			top := 3
+			if tier == "thorough" {
+				top = 4
+			}
+			for p := 0; p <= 4; p++ {
+				for k := 0; k <= top; k++ {
+					if p == 0 && k == 0 {
+						continue
+					}
+					if tier != "thorough" && k == 3 && p > 1 {
+						continue
+					}
+					out = append(out, map[string]int{"k": k, "prefix": p})
+				}
+			}
+			return out
+		}})
+	reg(&Oblig{ID: "C128-sym", Pkg: "code128", Func: "VP_C128_sym", Props: []string{"C05", "C10", "C11", "C14"},
+		Desc:  "Code 128 symbol for n symbolic ASCII bytes (optionally one FNC placeholder): every 11-module group is a pattern of the standard table, check character = weighted sum mod 103 (absent in the no-checksum variant), 13-module stop, bars decode to the text, Content, CheckSum(), metadata, colours",
+		Real:  append([]string{"code128.Encode", "code128.EncodeWithColor", "code128.EncodeWithoutChecksum", "code128.EncodeWithoutChecksumWithColor", "code128.strToRunes", "code128.getCodeIndexList", "utils.New1DCodeIntCheckSumWithColor"}, colReal...),
+		Stubs: []string{"content bytes assumed ASCII, FNC placeholders inserted as concrete 2-byte runes", "oracle: 107 element-width patterns transcribed from the symbology specification (11 modules, 3 bars + 3 spaces each; checked in the harness)"},
+		Bound: "n <= 2 symbolic bytes x checksum variant x FNC1..4 at each position (quick); n <= 3 (thorough)",
+		Configs: func(tier string, seed int64) []map[string]int {
+			var out []map[string]int
+			top := 2
+			if tier == "thorough" {
+				top = 3
+			}
+			q := 0
+			for n := 0; n <= top; n++ {
+				for cs := 0; cs <= 1; cs++ {
+					out = append(out, map[string]int{"n": n, "fpos": -1, "fnc": 1, "cs": cs, "color": (n + cs) % 2})
+					for fpos := 0; fpos <= n; fpos++ {
+						q++
+						if tier != "thorough" && (q%2 == 1 || n == 2 && fpos != 1) {
+							continue
+						}
+						out = append(out, map[string]int{"n": n, "fpos": fpos, "fnc": 1 + q%4, "cs": cs, "color": q % 2})
+					}
+				}
+			}
+			return out
+		}})
+	reg(&Oblig{ID: "C128-len", Pkg: "code128", Func: "VP_C128_len", Props: []string{"C05", "C10"},
+		Desc: "length limits: 80 characters accepted, 81 rejected (lower-case letters, symbolic)", Real: []string{"code128.Encode"},
+		Bound: "n in {1, 79, 80, 81, 100} symbolic lower-case letters", Configs: tiered(one("n", 1, 80, 81), one("n", 1, 79, 80, 81, 100))})
 }
